@@ -325,6 +325,8 @@ func (eapAkaPrime *EapAkaPrime) Unmarshal(rawData []byte) error {
 				if err != nil {
 					return errors.Wrapf(err, "EAP-AKA' Unmarshal(): read %s attribute/padding failed", attr.attrType)
 				}
+				// Keep the padding with the value, as setAttr() does, so that Marshal() emits the whole attribute
+				attr.value = append(attr.value, padding...)
 			}
 		case AT_KDF:
 			valLen := 4*attr.length - EapAkaAttrTypeLen - EapAkaAttrLengthLen
@@ -567,7 +569,16 @@ func (attr *EapAkaPrimeAttr) setAttr(attrType EapAkaPrimeAttrType, value []byte)
 
 func (attr *EapAkaPrimeAttr) GetAttrType() EapAkaPrimeAttrType { return attr.attrType }
 
-func (attr *EapAkaPrimeAttr) GetValue() []byte { return attr.value }
+func (attr *EapAkaPrimeAttr) GetValue() []byte {
+	switch attr.attrType {
+	case AT_RES, AT_KDF_INPUT:
+		// value is stored with its padding, reserved holds the actual length in bits
+		if valBytesLen := int(attr.reserved / 8); valBytesLen <= len(attr.value) {
+			return attr.value[:valBytesLen]
+		}
+	}
+	return attr.value
+}
 
 // RFC 9048 - 3.4.1. PRF'
 func EapAkaPrimePRF(
